@@ -98,3 +98,28 @@ MUTANTS += [
         return ""
         raise AnnotationError(""")]),
 ]
+
+MUTANTS += [
+    # ---- C09
+    dict(id="c09-prefix-suffix-swapped", property="C09", edits=[(P, """                if pieces[0] == "...":
+                    pieces = pieces[1:]
+                    prefix = False
+                    suffix = True""", """                if pieces[0] == "...":
+                    pieces = pieces[1:]
+                    prefix = True
+                    suffix = False"""), (P, """                elif pieces[-1] == "...":
+                    pieces = pieces[:-1]
+                    prefix = True
+                    suffix = False""", """                elif pieces[-1] == "...":
+                    pieces = pieces[:-1]
+                    prefix = False
+                    suffix = True""")]),
+    dict(id="c09-compose-reversed", property="C09", edits=[(P, "                for identifier in pieces:\n", "                for identifier in reversed(pieces):\n")]),
+    dict(id="c09-structure-identity", property="C09", edits=[(P, "                    if prev_structure != structure:\n                        return False", "                    if prev_structure is not structure:\n                        return False")]),
+    dict(id="c09-unbound-composite-false", property="C09", edits=[(P, """                    except KeyError as e:
+                        raise AnnotationError(""", """                    except KeyError as e:
+                        return False
+                        raise AnnotationError(""")]),
+    dict(id="c09-string-validation-skips-last", property="C09", edits=[(P, "                for piece_index, piece in enumerate(pieces):\n", "                for piece_index, piece in enumerate(pieces[:-1]):\n")]),
+    dict(id="c09-suffix-any-instead-of-all", property="C09", edits=[(P, "if any(not has_structure(x) for x in dummy_leaves):", "if dummy_leaves and all(not has_structure(x) for x in dummy_leaves):")]),
+]
